@@ -128,6 +128,12 @@ def generate(R, tier):
                 # the caller edits its own packet object in place (a new input from then on), then fingerprints the same object again
                 ops.append({"op": "edit", "pkt": j, "win": R.choice([0, 1, 8192, 65535, pkts[j][1]["mss"] * 2 % 65536, R.randrange(65536)])})
                 ops.append({"op": "tcp", "pkt": j, "syn_mss": 0, "md": 35, "mode": "raw"})
+            elif r < 0.985:
+                # the caller edits the PARSED Packet it keeps (plain mutable dataclasses): from then on that object is a new input -
+                # the next result must follow its current fields, nothing remembered from the calls made with it before
+                ops.append({"op": "edit_parsed", "pkt": j, "win": R.choice([0, 8192, 65535, pkts[j][1]["mss"] * 2 % 65536, R.randrange(65536)]),
+                            "ttl": R.choice([None, 64, 128, 255, R.randint(1, 255)])})
+                ops.append({"op": "tcp", "pkt": j, "syn_mss": 0, "md": R.choice([35, 255]), "mode": "shared"})
             else:
                 ops.append({"op": "uptime", "pkt": j})
         yield {"stream": "history", "files": files, "pkts": [s for s, _, _ in pkts], "payloads": payloads, "ops": ops}
@@ -137,10 +143,31 @@ def model_line(c):
     toks = []
     pk = [dict(sp) for sp in c["pkts"]]          # the packets as they are NOW (in-place edits by the caller are applied in order)
     c = dict(c, pkts=pk)
+    sh = {}                                       # the parsed Packet objects the caller keeps, as they are NOW
     for o in c["ops"]:
         if o["op"] == "edit":
             pk[o["pkt"]]["win"] = o["win"]
+            sh.pop(o["pkt"], None)
             toks.append("4")
+            continue
+        if o["op"] == "edit_parsed":
+            j = o["pkt"]
+            if j not in sh:
+                sh[j] = dict(pk[j])
+            sh[j]["win"] = o["win"]
+            if o["ttl"] is not None:
+                sh[j]["ttl"] = o["ttl"]
+            toks.append("4")
+            continue
+        if o["op"] in ("tcp", "mtu") and o["mode"] == "shared":
+            j = o["pkt"]
+            if j not in sh:
+                sh[j] = dict(pk[j])
+            spec = sh[j]
+            if o["op"] == "tcp":
+                toks.append("1 %d %d %d %s" % (o["md"], o["syn_mss"], W.full(spec)["v"], W.build(spec).hex()))
+            else:
+                toks.append("2 %d %s" % (W.full(spec)["v"], W.build(spec).hex()))
             continue
         if o["op"] == "load":
             f = c["files"][o["file"]]
@@ -219,6 +246,17 @@ def impl_init():
                 elif o["op"] == "edit":
                     scapy[o["pkt"]].getlayer("TCP").window = o["win"]
                     shared.pop(o["pkt"], None)        # a parsed Packet the caller still holds describes the packet as it WAS
+                    out.append(None)
+                elif o["op"] == "edit_parsed":
+                    j = o["pkt"]
+                    try:
+                        if j not in shared:
+                            shared[j] = parse_packet(scapy[j])
+                        shared[j].tcp.window = o["win"]
+                        if o["ttl"] is not None:
+                            shared[j].ip.ttl = o["ttl"]
+                    except PacketError:      # not a packet pyp0f accepts: nothing to edit, the following call reports the error
+                        pass
                     out.append(None)
                 elif o["op"] == "imp_tcp":
                     try:
